@@ -160,6 +160,12 @@ impl Check for VotesCheck {
     fn components(&self) -> serde_json::Value {
         serde_json::json!({"real": ["stellar_governance::votes::*", "stellar_tokens::fungible::votes::FungibleVotes", "fungible Base"], "stub": ["Wallet"]})
     }
+    fn dup_ok(&self, _s: &Step) -> bool {
+        true
+    }
+    fn reorder_ok(&self) -> bool {
+        true
+    }
     fn generate(&self, rng: &mut Rng, tier: Tier) -> (Cfg, Vec<Step>) {
         let cfg = Cfg { actors: 3 + rng.below(3) as usize, start_ledger: 1 + rng.below(100_000) as u32 };
         let n = cfg.actors as u64;
